@@ -164,43 +164,58 @@ def judge_fit(obs, allowed, droppable):
 
 # ---------------------------------------------------------------------------------------------
 # (b) tiny exact fits and polynomial reproduction: spec -> code
-def run_fit_case(c, exp, notes):
+WSCALES = [-70, -50, -30, -10, 10, 30, 50, 70]     # invvar * 2^a
+YSCALES = [-40, -20, 0, 20, 40]                    # y * 2^b
+
+
+def scale_pair(n):
+    """Deterministic (a, b) for the n-th rescaled replay: all 40 combinations in turn."""
+    return WSCALES[n % len(WSCALES)], YSCALES[(n // len(WSCALES)) % len(YSCALES)]
+
+
+def run_fit_case(c, exp, notes, a=0, b=0):
+    """a, b: the case is replayed with invvar * 2^a and y * 2^b; by the scale laws of the specification the status
+    and the mask are the same and the optimum is TLC's times 2^b (powers of two: the rescaling itself is exact)."""
     k, t = c['k'], c['t']
     s = make_sset(k, t, notes)
+    ys, ws = 2.0 ** b, 2.0 ** a
     x = np.array([float(frac(q)) for q in c['x']], dtype='d')
-    y = np.array(c['y'], dtype='d')
-    w = np.array(c['w'], dtype='d')
+    y = np.array(c['y'], dtype='d') * ys
+    w = np.array(c['w'], dtype='d') * ws
     obs = call_fit(s, x, y, w)
     inter = set(range(k + 1, len(t) - k + 1))
+    tag = ' [replayed with invvar*2^%d, y*2^%d]' % (a, b) if (a or b) else ''
     bad = judge_fit(obs, exp['allowed'], inter)
     if bad:
-        return bad
+        return bad + tag
     if obs['st'] == 0 and exp['wellposed']:
         want = np.array([float(frac(q)) for q in exp['coeff']], dtype='d')
-        got = np.asarray(s.coeff, dtype='d')
+        got = np.asarray(s.coeff, dtype='d') / ys
         scale = 1 + np.abs(want).max()
         if got.shape != want.shape or not np.all(np.abs(got - want) <= RTOL * scale):
-            return 'coefficients %s differ from the exact optimum %s' % (got.tolist(), [str(frac(q)) for q in exp['coeff']])
+            return 'coefficients %s differ from the exact optimum %s%s' % (got.tolist(), [str(frac(q)) for q in exp['coeff']], tag)
         wy = np.array([float(frac(q)) for q in exp['yfit']], dtype='d')
-        if obs['yfit'].shape != wy.shape or not np.all(np.abs(obs['yfit'] - wy) <= RTOL * scale):
-            return 'fitted values %s differ from the optimum\'s %s' % (obs['yfit'].tolist(), wy.tolist())
+        if obs['yfit'].shape != wy.shape or not np.all(np.abs(obs['yfit'] / ys - wy) <= RTOL * scale):
+            return 'fitted values %s differ from the optimum\'s %s%s' % ((obs['yfit'] / ys).tolist(), wy.tolist(), tag)
     return None
 
 
-def run_poly_case(c, exp, notes):
+def run_poly_case(c, exp, notes, a=0, b=0):
     k, t = c['k'], c['t']
     s = make_sset(k, t, notes)
+    ys, ws = 2.0 ** b, 2.0 ** a
     x = np.array([float(frac(q)) for q in c['x']], dtype='d')
-    y = np.array(exp['y'], dtype='d')
-    w = np.array(c['w'], dtype='d')
-    obs = call_fit(s, x, y, w)
+    y0 = np.array(exp['y'], dtype='d')
+    w = np.array(c['w'], dtype='d') * ws
+    obs = call_fit(s, x, y0 * ys, w)
+    tag = ' [replayed with invvar*2^%d, y*2^%d]' % (a, b) if (a or b) else ''
     bad = judge_fit(obs, exp['allowed'], set(range(k + 1, len(t) - k + 1)))
     if bad:
-        return bad
+        return bad + tag
     if obs['st'] == 0 and exp['allowed'] == frozenset([0]):
-        scale = 1 + np.abs(y).max()
-        if not np.all(np.abs(obs['yfit'] - y) <= RTOL * scale):
-            return 'polynomial of degree %d not reproduced at the data: max error %.3g' % (k - 1, np.abs(obs['yfit'] - y).max())
+        scale = 1 + np.abs(y0).max()
+        if not np.all(np.abs(obs['yfit'] / ys - y0) <= RTOL * scale):
+            return 'polynomial of degree %d not reproduced at the data: max error %.3g%s' % (k - 1, np.abs(obs['yfit'] / ys - y0).max(), tag)
         px = np.array([float(frac(q)) for q in c['probes']], dtype='d')
         pv = np.array([float(frac(q)) for q in exp['pv']], dtype='d')
         try:
@@ -209,8 +224,8 @@ def run_poly_case(c, exp, notes):
             return 'value() raised ' + short_exc(ex)
         if not np.all(vm):
             return 'value() flags probe points inside the breakpoint range as bad'
-        if not np.all(np.abs(val - pv) <= RTOL * scale):
-            return 'polynomial of degree %d not reproduced at probe points: max error %.3g' % (k - 1, np.abs(val - pv).max())
+        if not np.all(np.abs(val / ys - pv) <= RTOL * scale):
+            return 'polynomial of degree %d not reproduced at probe points: max error %.3g%s' % (k - 1, np.abs(val / ys - pv).max(), tag)
     return None
 
 
@@ -245,13 +260,14 @@ def knots_for(nord, S):
     return list(range(-(nord - 1), S + nord))
 
 
-def run_state_fit(nord, S, pc, mask, rng, notes):
+def run_state_fit(nord, S, pc, mask, rng, notes, data=None, a=0, b=0):
     s = make_sset(nord, knots_for(nord, S), notes)
     mk = np.zeros(s.mask.shape, dtype=bool)
     for g in mask:
         mk[g - 1] = True
     s.mask = mk
-    x, y, w = cell_data(nord, S, pc, rng)
+    x, y, w = data if data is not None else cell_data(nord, S, pc, rng)
+    y, w = y * 2.0 ** b, w * 2.0 ** a
     ill = illcond(s, x, w)
     return dict(call_fit(s, x, y, w), ill=ill), (x, y, w), s
 
@@ -547,15 +563,25 @@ def float_problem(rng, quick):
     bk = lo + width * np.arange(S + 1)
     if rng.random() < 0.5 and S > 1:       # uneven interior breakpoints (the padding stays at the first spacing)
         bk[1:-1] += width * np.array([rng.uniform(-0.3, 0.3) for _ in range(S - 1)])
+    sparse = rng.random() < 0.4
+    if sparse:
+        # irregular sampling: cells holding exactly one point next to cells with 0, 2, 3 (whether the system is still
+        # determined is TLC's verdict on the support counts)
+        k = rng.choice([1, 2, 2, 3, 3, 4])
+        S = max(S, 3)
     per = rng.randint(k + 2, 14)
     xs = []
     for c0 in range(S):
-        xs.extend(rng.uniform(bk[c0], bk[c0 + 1]) for _ in range(per))
+        cnt = per if not sparse else rng.choice([1, 1, 2, 3] if k == 1 else [1, 1, 1, 2, 2, 3, 0])
+        xs.extend(rng.uniform(bk[c0] + 0.05 * (bk[c0 + 1] - bk[c0]), bk[c0 + 1] - 0.05 * (bk[c0 + 1] - bk[c0])) for _ in range(cnt))
     xs.extend([bk[0], bk[-1]])
     x = np.array(sorted(xs), dtype='d')
-    amp = 10 ** rng.uniform(-1, 3)
+    # magnitudes over a wide range: y in "large units" with correspondingly tiny inverse variances and the reverse
+    amp = 10 ** rng.uniform(-1, 3) * 2.0 ** rng.choice([0, 0, 0, -40, -20, 20, 30, 40])
+    wfac = 2.0 ** rng.choice([0, 0, 0, -70, -40, -10, 10, 40, 70])
     y = amp * (np.sin((x - lo) / width * 1.7) + 0.3 * np.array([rng.gauss(0, 1) for _ in x]))
-    w = np.array([0.0 if rng.random() < 0.08 else rng.choice([0.5, 1.0, 1.0, 2.0, 4.0]) for _ in x], dtype='d') / (0.1 * amp) ** 2
+    pz = 0.03 if sparse else 0.08
+    w = np.array([0.0 if rng.random() < pz else rng.choice([0.5, 1.0, 1.0, 2.0, 4.0]) for _ in x], dtype='d') / (0.1 * amp) ** 2 * wfac
     return k, bk, x, y, w, amp
 
 
@@ -583,6 +609,16 @@ def law_records(rng, count, quick, stats):
             continue
         rec['S'], rec['pc'] = ab
         rec['mask'] = list(range(1, knots.size + 1))
+        # measured conditioning of the weighted design: the unit of the discrepancies grows with cond^2 (the code solves
+        # the normal equations); numerically singular systems are not compared
+        try:
+            sv = np.linalg.svd(design_matrix(knots, k, x) * np.sqrt(w)[:, None], compute_uv=False)
+            kappa = sv[0] / sv[-1] if (sv.size == knots.size - k and sv[-1] > 0) else np.inf
+        except Exception:
+            kappa = np.inf
+        rec['condok'] = bool(kappa <= 1e5)
+        cfac = max(1.0, kappa ** 2 * 1.1e-8) if rec['condok'] else 1.0
+        amp0, amp = amp, amp * cfac
 
         def fit1(yy, ww):
             s1 = sset_on(k, bk, x)
@@ -598,7 +634,7 @@ def law_records(rng, count, quick, stats):
                 elif o['st'] == 0:
                     ref, rank, A = dense_wls(knots, k, x, y, w)
                     if rank == ref.size:
-                        scale = max(np.abs(ref).max(), amp * 1e-3)
+                        scale = max(np.abs(ref).max() * cfac, amp * 1e-3)
                         rec['disc'] = max(units(np.abs(cf - ref).max(), scale), units(np.abs(o['yfit'] - A.dot(ref)).max(), scale))
             elif law == 'zw':
                 zi = [int(q) for q in np.nonzero(w == 0)[0]]
@@ -613,7 +649,7 @@ def law_records(rng, count, quick, stats):
                 rec['exc'] = o1['exc'] or o2['exc'] or ''
                 rec['altered'], rec['zeroidx'] = [q + 1 for q in alt], [q + 1 for q in zi]
                 if not rec['exc'] and rec['st'] == [0, 0]:
-                    rec['disc'] = units(np.abs(c1 - c2).max(), max(np.abs(c1).max(), amp * 1e-3))
+                    rec['disc'] = units(np.abs(c1 - c2).max(), max(np.abs(c1).max() * cfac, amp * 1e-3))
             elif law == 'lin':
                 ya = amp * np.array([rng.gauss(0, 1) for _ in x])
                 al, be = rng.uniform(-3, 3), rng.uniform(-3, 3)
@@ -624,7 +660,7 @@ def law_records(rng, count, quick, stats):
                 rec['finite'] = o1['finite'] and o2['finite'] and o3['finite']
                 rec['exc'] = o1['exc'] or o2['exc'] or o3['exc'] or ''
                 if not rec['exc'] and rec['st'] == [0, 0, 0]:
-                    scale = max(np.abs(c1).max(), np.abs(c2).max(), amp * 1e-3) * (abs(al) + abs(be) + 1)
+                    scale = max(np.abs(c1).max() * cfac, np.abs(c2).max() * cfac, amp * 1e-3) * (abs(al) + abs(be) + 1)
                     rec['disc'] = units(np.abs(c3 - (al * c1 + be * c2)).max(), scale)
             else:
                 pcs = [amp * rng.uniform(-1, 1) for _ in range(k)]
@@ -639,7 +675,7 @@ def law_records(rng, count, quick, stats):
                     pu = (px - bk[0]) / (bk[-1] - bk[0])
                     val, vm = s1.value(px)
                     d = max(np.abs(o['yfit'] - yp).max(), np.abs(val - sum(cv * pu ** e for e, cv in enumerate(pcs))).max())
-                    rec['disc'] = units(d, max(np.abs(yp).max(), amp * 1e-3)) if np.all(vm) else CAP
+                    rec['disc'] = units(d, max(np.abs(yp).max() * cfac, amp * 1e-3)) if np.all(vm) else CAP
         except Exception as ex:
             rec['exc'] = 'harness-side: ' + short_exc(ex)
         rec['st'] = [v if isinstance(v, int) else 99 for v in rec['st']]
@@ -893,6 +929,7 @@ def run_cases(ctx, notes):
     cfg = 'MC_BSplineFit_quick.cfg' if ctx.quick else 'MC_BSplineFit_thorough.cfg'
     r = ctx.tlc('MC_BSplineFit.tla', cfg, dump=True, timeout=3000)
     counts, bads = {}, {}
+    nscaled = 0
     for st in core.iter_states(r):
         c, exp = st['c'], st['exp']
         kind = c['kind']
@@ -907,11 +944,25 @@ def run_cases(ctx, notes):
         elif kind == 'fit':
             bad = run_fit_case(c, exp, notes)
             part = 'fit-exact' if exp['wellposed'] else 'fit-illposed'
+            if not bad:                      # the scale laws: same case, invvar * 2^a, y * 2^b
+                nscaled += 1
+                a2, b2 = scale_pair(nscaled)
+                bad = run_fit_case(c, exp, notes, a2, b2)
+                ctx.evaluated(1, 'fit-rescaled')
+                if bad:
+                    part = 'fit-rescaled'
             if exp['wellposed'] and len(c['x']) > len(c['t']) - c['k']:
                 ctx.nontriv(('fit', c['k'], c['t'], c['x'], c['y'], c['w']))
         elif kind == 'poly':
             bad = run_poly_case(c, exp, notes)
             part = 'poly'
+            if not bad:
+                nscaled += 1
+                a2, b2 = scale_pair(nscaled)
+                bad = run_poly_case(c, exp, notes, a2, b2)
+                ctx.evaluated(1, 'poly-rescaled')
+                if bad:
+                    part = 'poly-rescaled'
             ctx.nontriv(('poly', c['k'], c['t'], c['pc'], c['w']))
         elif kind == 'fewbk':
             s = make_sset(c['k'], knots_for(c['k'], c['S']), notes)
@@ -972,6 +1023,18 @@ def run_machine(ctx, notes):
         exp = st['exp']
         obs, data, sobj = run_state_fit(P['nord'], P['S'], P['pc'], st['bkmask'], rng, notes)
         bad = judge_fit(obs, exp['allowed'], exp['droppable'])
+        if not bad and len(seen) % 3 == 0:
+            # scale laws: the same state with invvar * 2^a, y * 2^b answers the same status with the same mask
+            a2, b2 = scale_pair(len(seen) // 3)
+            obs2, _d2, _s2 = run_state_fit(P['nord'], P['S'], P['pc'], st['bkmask'], rng, notes, data=data, a=a2, b=b2)
+            ctx.evaluated(1, 'machine-step-rescaled')
+            bad = judge_fit(obs2, exp['allowed'], exp['droppable'])
+            if not bad and (obs2['st'] != obs['st'] or good(obs2['after']) != good(obs['after'])):
+                bad = 'status %r / good knots %s, but %r / %s on the same data' % (obs2['st'], good(obs2['after']), obs['st'], good(obs['after']))
+            if bad:
+                bad += ' [replayed with invvar*2^%d, y*2^%d]' % (a2, b2)
+                data = (data[0], data[1] * 2.0 ** b2, data[2] * 2.0 ** a2)
+                obs = obs2
         if len(st['bkmask']) < P['S'] + 2 * P['nord'] - 1 and not obs['exc']:
             # breakpoints had been dropped before this fit: basis consistency always, optimality when it answered 0
             nmasked += 1
